@@ -138,7 +138,8 @@ def R3_search_siblings(run):
     ex = {r"\.ticks\[.*\]\.initialized =>": "fixed array tests ticks[i].initialized", r"^is_initialized_tick\(": "dynamic array tests bit i of the bitmap (C13.R2/R3 tie the bitmap to the slots)",
           r"^(0 Eq )?\(\(1 Shl .*\) BitAnd .*tick_bitmap.*\)": "the same bit test with is_initialized_tick read in place (C13.R3 decides it)",
           r"^tick_bitmap\(self\)$": "bitmap read", r"^start_tick_index\(self\)$": "accessor vs field"}
-    C12.compare_pair(run, "R3", FIXED + "::get_next_init_tick_index", DYN + "::get_next_init_tick_index", exempt=ex, norm_a={"field_map": {}}, norm_b={"method_fields": ["start_tick_index"]})
+    C12.compare_pair(run, "R3", FIXED + "::get_next_init_tick_index", DYN + "::get_next_init_tick_index", exempt=ex, norm_a={"field_map": {}}, norm_b={"method_fields": ["start_tick_index"]},
+                     semantic="slot_search")
     for name, path in (("fixed", FIXED), ("dynamic", DYN), ("zeroed", ZERO)):
         fn = facts.need_fn(path + "::get_next_init_tick_index")
         run.touch(fn)
@@ -162,25 +163,17 @@ def R3_search_siblings(run):
     for path in (FIXED, DYN):
         fn = facts.need_fn(path + "::get_next_init_tick_index")
         for ab in (True, False):
-            pvc = prov_of(fn, {"a_to_b": ab}, cut=True)
-            # the search cursor: whichever re-assigned local is stepped by one (its name does not matter)
-            steps = set()
-            for loc_ in range(fn.argc + 1, len(fn.locals)):
-                if not fn.locals[loc_].get("n"):
-                    continue
-                for (_, _, t) in pvc.var_defs(loc_):
-                    s = strip(t)
-                    if s[0] == "bin" and s[1] in ("Add", "Sub", "AddWithOverflow", "SubWithOverflow") and strip(s[2])[0] == "var" and strip(s[2])[2] == loc_:
-                        for amt in leaves(strip(s[3])):
-                            v_ = const_val(amt)
-                            if v_ in (1, -1):   # cursor + (-1) is a step to the left
-                                steps.add(s[1][:3] if v_ == 1 else {"Add": "Sub", "Sub": "Add"}[s[1][:3]])
-                            else:
-                                steps.add("by %s" % show(amt))
-            want = {"Sub"} if ab else {"Add"}
-            run.check("R3", "step-direction@%s[a_to_b=%d]" % ("fixed" if path is FIXED else "dynamic", ab), steps == want,
-                      "search offset moves by %s for a_to_b=%s, expected %s (a_to_b searches leftwards inclusive, b_to_a rightwards exclusive)" % (sorted(steps), ab, sorted(want)), loc=fn.loc(),
-                      detail="offset %s 1%s" % ("-" if ab else "+", "" if ab else " (and +1 before the first test)"))
+            # the search read as a model (first slot, direction, last slot, array bounds, slot -> tick), whether it is written as a
+            # cursor stepped in a loop or as Iterator::find over a (reversed) range
+            from rules.ranges import search_model
+            m, why = search_model(facts, fn, ab)
+            want = dict(first={("o",): 1} if ab else {("o",): 1, (): 1}, dir=-1 if ab else 1, stop={} if ab else {(): 88}, guard=({}, {(): 88}), result={("T", "x"): 1, ("S",): 1})
+            got = {k: m[k] for k in want} if m else None
+            run.check("R3", "step-direction@%s[a_to_b=%d]" % ("fixed" if path is FIXED else "dynamic", ab), got == want,
+                      "the slot search for a_to_b=%s is %s, expected first slot %s, step %+d until %s inside [0, 88), found slot x -> x * spacing + start (a_to_b searches leftwards inclusive, b_to_a rightwards exclusive)" % (
+                          ab, ("first %s, step %s, until %s, guard %s, result %s" % (show_poly(got["first"]), got["dir"], show_poly(got["stop"]), [show_poly(g) for g in got["guard"]], show_poly(got["result"])))
+                          if got else "not recognisable (%s)" % why, "offset" if ab else "offset + 1", want["dir"], "0" if ab else "88"), loc=fn.loc(),
+                      detail="offset %s 1%s (%s form)" % ("-" if ab else "+", "" if ab else " (and +1 before the first test)", m["form"] if m else "?"))
     # in_search_range
     fn = facts.need_fn(TA + "::in_search_range")
     run.touch(fn)
